@@ -915,7 +915,71 @@ def fzn_args(r, m):
     return args
 
 
+def php_timelimit_fzn(np):
+    """minimize z over {1,2,3}. The search order (input order, smallest value first over b, 4-z, nr, pigeons)
+    finds (b=0, z=3) at once; z <= 2 with b = 0 requires np pigeons in np-1 holes (a long refutation), while
+    b = 1 allows z = 1. So a run cut short by --time-limit holds a suboptimal incumbent."""
+    holes = np - 1
+    L = ["var 0..1: b :: output_var;", "var 1..3: zz;", "var 1..3: z :: output_var;", "var 0..1: nr;"]
+    for k in range(np):
+        L.append("var 1..%d: p%d;" % (holes + 1, k))
+    ps = ",".join("p%d" % k for k in range(np))
+    L.append("array [1..%d] of var int: ps = [%s];" % (np, ps))
+    L.append("array [1..%d] of var int: order = [b,zz,nr,%s];" % (np + 3, ps))
+    L.append("constraint int_lin_eq([1,1],[z,zz],4);")
+    L.append("constraint int_lin_le([-1,1,-2],[nr,zz,b],1);")
+    for k in range(np):
+        L.append("constraint int_lin_le([1,1],[p%d,nr],%d);" % (k, holes + 1))
+    L.append("constraint pumpkin_all_different(ps);")
+    L.append("solve :: int_search(order,input_order,indomain_min,complete) minimize z;")
+    return "\n".join(L) + "\n"
+
+
+def case_fzn_timelimit(r, i, d):
+    """An optimisation run that is cut short by --time-limit must not print the completeness line after a
+    suboptimal solution (and whatever it prints must be a solution). The verdict does not depend on timing: a
+    run that finishes in time has to end with the optimum, a run that does not may print nothing further."""
+    np = r.choice([12, 13, 14])
+    limit = r.choice([200, 400, 800])
+    text = php_timelimit_fzn(np)
+    args = ["--time-limit", str(limit)] + (["-a"] if r.random() < 0.5 else [])
+    res = result(i, ["fzn.time_limit", "fzn.objective", "kind.int_lin_le", "kind.int_lin_eq", "kind.pumpkin_all_different"], text, args)
+    path = os.path.join(d, "m.fzn")
+    with open(path, "w") as f:
+        f.write(text)
+    rc, out, err = run_cli([path] + args, timeout=60)
+    count(res, "cli_runs")
+    count(res, "time_limited_runs")
+    res["nontrivial"] = True
+    res["cover"].append("fzn.time_limit")
+    if rc == "timeout":
+        fail(res, "timeout", "no answer within 60 s although --time-limit %d was given" % limit)
+        return res
+    if rc != 0 or "panicked" in err:
+        fail(res, "no-verdict", crash_text(rc, out, err))
+        return res
+    blocks, status = parse_fzn_out(out)
+    ok = {(0, 3), (1, 1), (1, 2), (1, 3)}
+    for bl in blocks:
+        count(res, "solution_blocks_checked")
+        if (bl.get("b"), bl.get("z")) not in ok:
+            fail(res, "printed-non-solution", "the printed assignment %s does not extend to a solution" % bl)
+            return res
+    if status["unsat"]:
+        fail(res, "unsat-but-satisfiable", "=====UNSATISFIABLE===== but (b=1, z=1) is a solution")
+    elif status["complete"]:
+        count(res, "time_limited_runs_complete")
+        if not blocks or blocks[-1].get("z") != 1:
+            fail(res, "completeness-line-after-suboptimal-solution",
+                 "========== printed after %s, the optimum is z = 1 (run with --time-limit %d)" % (blocks[-1] if blocks else "no solution", limit))
+    else:
+        count(res, "time_limited_runs_cut_short")
+    return res
+
+
 def case_fzn(r, i, d):
+    if i % 500 == 499:
+        return case_fzn_timelimit(r, i, d)
     m = gen_fzn(r)
     text = fzn_text(m)
     args = fzn_args(r, m)
